@@ -149,7 +149,7 @@ theorem stop_recorded_once (outs : List WaitOutcome) (r : Nat) :
   refine ⟨?_, conts_exact outs r⟩
   rw [failures_exact]
   have hend : ∀ e, (classes (endFailures e)).count FailClass.stopped = 0 := by
-    intro e; cases e <;> simp [endFailures, classes, giveUpFailure, waitFailure, forkFailure]
+    intro e; cases e <;> simp [endFailures, classes, giveUpFailure, waitFailure, forkFailure, noForkFailure]
   have hone : ∀ o : WaitOutcome, (classes (outcomeFailures o)).count FailClass.stopped = stopCount [o] := by
     intro o
     cases o with
@@ -269,7 +269,7 @@ theorem eintr_retries_bounded (outs : List WaitOutcome) :
         | other => simp [StatusClass.expected]
   simp only [classes, List.map_append, List.count_append] at hall ⊢
   rw [hall]
-  cases (parentLoop 0 outs).ended <;> simp [endFailures, giveUpFailure, waitFailure, forkFailure]
+  cases (parentLoop 0 outs).ended <;> simp [endFailures, giveUpFailure, waitFailure, forkFailure, noForkFailure]
 
 /-- the bound the source states is a small constant: at most `retryBound + 2 ≤ 1002` waits are
     ever interrupted before the parent returns -/
@@ -345,24 +345,36 @@ theorem failures_account (outs : List WaitOutcome) :
 /-- failures the tests of a registry add, summed -/
 def failuresOf (ts : List TestScript) : Nat := (ts.map (fun t => (runSeparate t).failures.length)).sum
 
-theorem runTests_all : ∀ (ts : List TestScript) (idx : Nat) (st : RunState),
-    (∀ t ∈ ts, t.returns) → st.hung = false →
+theorem runResults_all : ∀ (rs : List LoopResult) (idx : Nat) (st : RunState),
+    (∀ r ∈ rs, r.ended ≠ .starved) → st.hung = false →
+    (runResults idx rs st).started = st.started ++ List.range' idx rs.length ∧
+    (runResults idx rs st).runCount = st.runCount + rs.length ∧
+    (runResults idx rs st).failureCount = st.failureCount + (rs.map (·.failures.length)).sum ∧
+    (runResults idx rs st).hung = false ∧ (runResults idx rs st).inRunner = st.inRunner
+  | [], idx, st, _, hh => by simp [runResults, hh]
+  | r :: rs, idx, st, hr, hh => by
+    have hret : r.ended ≠ .starved := hr r (List.mem_cons_self ..)
+    have hhung : (runResultAt idx r st).hung = false := by simp [runResultAt, hret]
+    have ih := runResults_all rs (idx + 1) (runResultAt idx r st)
+      (fun r' hr' => hr r' (List.mem_cons_of_mem _ hr')) hhung
+    simp only [runResults, hhung, Bool.false_eq_true, if_false]
+    obtain ⟨i1, i2, i3, i4, i5⟩ := ih
+    refine ⟨?_, ?_, ?_, i4, ?_⟩
+    · rw [i1]; simp [runResultAt, List.range'_succ]
+    · rw [i2]; simp [runResultAt]; omega
+    · rw [i3]; simp [runResultAt, RunState.failureCount]; omega
+    · rw [i5]; simp [runResultAt]
+
+theorem runTests_all (ts : List TestScript) (idx : Nat) (st : RunState)
+    (hr : ∀ t ∈ ts, t.returns) (hh : st.hung = false) :
     (runTests idx ts st).started = st.started ++ List.range' idx ts.length ∧
     (runTests idx ts st).runCount = st.runCount + ts.length ∧
     (runTests idx ts st).failureCount = st.failureCount + failuresOf ts ∧
-    (runTests idx ts st).hung = false
-  | [], idx, st, _, hh => by simp [runTests, failuresOf, hh]
-  | t :: ts, idx, st, hr, hh => by
-    have hret : (runSeparate t).ended ≠ .starved := hr t (List.mem_cons_self ..)
-    have hhung : (runTestAt idx t st).hung = false := by simp [runTestAt, hret]
-    have ih := runTests_all ts (idx + 1) (runTestAt idx t st)
-      (fun t' ht' => hr t' (List.mem_cons_of_mem _ ht')) hhung
-    simp only [runTests, hhung, Bool.false_eq_true, if_false]
-    obtain ⟨i1, i2, i3, i4⟩ := ih
-    refine ⟨?_, ?_, ?_, i4⟩
-    · rw [i1]; simp [runTestAt, List.range'_succ]
-    · rw [i2]; simp [runTestAt]; omega
-    · rw [i3]; simp [runTestAt, RunState.failureCount, failuresOf]; omega
+    (runTests idx ts st).hung = false := by
+  have h := runResults_all (ts.map runSeparate) idx st
+    (by intro r hr'; obtain ⟨t, ht, rfl⟩ := List.mem_map.mp hr'; exact hr t ht) hh
+  simp only [List.length_map, List.map_map] at h
+  exact ⟨h.1, h.2.1, h.2.2.1, h.2.2.2.1⟩
 
 /-- **The parent goes on to the remaining tests:** when every test's wait returns (see
     `parent_returns`), every test of the registry is started, in order, and counted as run —
@@ -435,6 +447,155 @@ theorem one_signal_death_fails_the_run (before after : List TestScript) (pre pos
   rw [hnil] at this
   simp [classes, hs, StatusClass.expected] at this
 
+/-! ## every test of the registry is forked (the per-test flag) -/
+
+/-- `runAllTests` sets the separate-process flag for every test, not only at a group start
+    (regenerated from the position of the statement in the loop) -/
+theorem sep_flag_set_for_every_test : sepFlagPlacement = .everyTest := by decide
+
+theorem runResults_inRunner : ∀ (rs : List LoopResult) (idx : Nat) (st : RunState),
+    (runResults idx rs st).inRunner = st.inRunner
+  | [], _, _ => rfl
+  | r :: rs, idx, st => by
+    simp only [runResults]
+    split
+    · rfl
+    · rw [runResults_inRunner rs (idx + 1)]; rfl
+
+theorem runRegistryFrom_everyTest : ∀ (ts : List RegTest) (idx : Nat) (gs : Bool) (st : RunState),
+    runRegistryFrom .everyTest idx gs ts st = runTests idx (ts.map (·.script)) st
+  | [], _, _, _ => rfl
+  | t :: ts, idx, gs, st => by
+    simp only [runRegistryFrom, sepFlag, if_true, runTests, List.map_cons, runResults]
+    split
+    · rfl
+    · exact runRegistryFrom_everyTest ts (idx + 1) _ _
+
+/-- **Whatever the grouping of the tests, every test is run through fork:** the registry as the
+    source has it behaves like a registry whose tests all carry the flag, and no test is ever
+    executed inside the runner process — so a dying test can only kill its own child. -/
+theorem registry_forks_every_test (ts : List RegTest) :
+    runRegistry ts = runAll (ts.map (·.script)) ∧ (runRegistry ts).inRunner = [] := by
+  have h : runRegistry ts = runAll (ts.map (·.script)) := by
+    unfold runRegistry; rw [sep_flag_set_for_every_test]; exact runRegistryFrom_everyTest ts 0 true _
+  refine ⟨h, ?_⟩
+  rw [h, runAll, runTests, runResults_inRunner]; rfl
+
+/-- what the model says about the other placement: with the statement inside `if (groupStart)`,
+    the second test of a group is executed in the runner itself (this is the behaviour the
+    harness looks for with registries whose dying test is not the first of its group) -/
+theorem group_start_only_misses_later_tests (g : Nat) (t1 t2 : TestScript) (h : t1.returns) :
+    (runRegistryFrom .groupStartOnly 0 true [⟨g, t1⟩, ⟨g, t2⟩] RunState.init).inRunner = [1] := by
+  have hh : ¬ (runSeparate t1).ended = .starved := h
+  simp [runRegistryFrom, sepFlag, endOfGroup, hh, runInRunnerAt, runResultAt, RunState.init]
+
+/-! ## the build without fork / waitpid / kill -/
+
+/-- **No fork on this platform:** `-p` cannot work; every test run in separate-process mode is
+    given exactly one failure saying so, nothing is forked or waited for. -/
+theorem no_fork_platform_reports_failure (t : TestScript) :
+    runSeparateOn .withoutFork t =
+      { failures := [noForkFailure], consumed := 0, conts := 0, ended := .noFork } := rfl
+
+theorem with_fork_platform_is_the_wait_loop (ts : List TestScript) : runAllOn .withFork ts = runAll ts := rfl
+
+/-- on such a build every test is still started and counted, each one fails once, and a
+    non-empty run is reported as failed -/
+theorem no_fork_platform_all_tests_fail (ts : List TestScript) :
+    (runAllOn .withoutFork ts).started = List.range ts.length ∧
+    (runAllOn .withoutFork ts).runCount = ts.length ∧
+    (runAllOn .withoutFork ts).failureCount = ts.length ∧
+    (runAllOn .withoutFork ts).hung = false ∧
+    (ts ≠ [] → (runAllOn .withoutFork ts).overallFailure = true) := by
+  have h := runResults_all (ts.map (runSeparateOn .withoutFork)) 0 RunState.init
+    (by intro r hr; obtain ⟨t, _, rfl⟩ := List.mem_map.mp hr; simp [runSeparateOn]) rfl
+  have hsum : ∀ l : List TestScript,
+      ((l.map (runSeparateOn .withoutFork)).map (·.failures.length)).sum = l.length := by
+    intro l
+    induction l with
+    | nil => rfl
+    | cons t l ih =>
+      simp only [List.map_cons, List.sum_cons, List.length_cons, ih]
+      simp [runSeparateOn]; omega
+  simp only [List.length_map, hsum ts] at h
+  have hc : (runAllOn .withoutFork ts).failureCount = ts.length := by
+    rw [runAllOn, h.2.2.1]; simp [RunState.init, RunState.failureCount]
+  refine ⟨?_, ?_, hc, h.2.2.2.1, ?_⟩
+  · rw [runAllOn, h.1]; simp [RunState.init, List.range_eq_range']
+  · rw [runAllOn, h.2.1]; simp [RunState.init]
+  · intro hne
+    simp only [RunState.overallFailure, hc, bne_iff_ne, ne_eq]
+    cases ts with
+    | nil => exact absurd rfl hne
+    | cons t ts => simp
+
+/-! ## the child's side -/
+
+def addedBy : List ChildStep → Nat
+  | [] => 0
+  | .adds k :: rest => k + addedBy rest
+  | .dies _ :: rest => addedBy rest
+
+def noDeath : List ChildStep → Bool
+  | [] => true
+  | .adds _ :: rest => noDeath rest
+  | .dies _ :: _ => false
+
+theorem childStatus_no_death : ∀ (steps : List ChildStep) (initial cur : Nat), noDeath steps = true →
+    childStatus initial cur steps = BitVec.ofNat 32 (childExitCode initial (cur + addedBy steps) * 256)
+  | [], _, _, _ => by simp [childStatus, addedBy]
+  | .adds k :: rest, initial, cur, h => by
+    have := childStatus_no_death rest initial (cur + k) (by simpa [noDeath] using h)
+    simp only [childStatus, addedBy, this]; congr 3; omega
+  | .dies s :: rest, _, _, h => by simp [noDeath] at h
+
+/-- **A failure anywhere in the child makes it exit non-zero** — in a plugin's pre action, in
+    setup, body or teardown, or reported by a plugin's post action straight into `result`; the
+    verdict depends only on the failure counter, not on `UtestShell::hasFailed_`.  A child
+    without failures exits with 0. -/
+theorem child_exit_status (steps : List ChildStep) (initial : Nat) (h : noDeath steps = true) :
+    classify (childStatus initial initial steps) = .exited (if addedBy steps = 0 then 0 else 1) := by
+  rw [childStatus_no_death steps initial initial h]
+  unfold childExitCode
+  by_cases h0 : addedBy steps = 0
+  · simp [h0]; decide
+  · have : initial < initial + addedBy steps := by omega
+    simp [h0, this]; decide
+
+/-- a child that dies on the way ends with that status, whatever it had recorded before -/
+theorem child_death_status : ∀ (pre : List ChildStep) (s : BitVec 32) (rest : List ChildStep) (initial cur : Nat),
+    noDeath pre = true → childStatus initial cur (pre ++ .dies s :: rest) = s
+  | [], _, _, _, _, _ => rfl
+  | .adds k :: pre, s, rest, initial, cur, h => by
+    simp only [List.cons_append, childStatus]
+    exact child_death_status pre s rest initial (cur + k) (by simpa [noDeath] using h)
+  | .dies _ :: _, _, _, _, _, h => by simp [noDeath] at h
+
+/-- child and parent together: a child that fails a check (or whose plugin reports a failure)
+    and then ends normally is recorded in the parent exactly once; one without failures not at all -/
+theorem failing_child_recorded_once (steps : List ChildStep) (initial : Nat) (h : noDeath steps = true)
+    (post : List WaitOutcome) :
+    classes (parentLoop 0 (.status (childStatus initial initial steps) :: post)).failures
+      = (if addedBy steps = 0 then [] else [.exitedNonZero]) := by
+  have hc := child_exit_status steps initial h
+  have := (every_death_recorded_once [] (childStatus initial initial steps) post (by simp) (by simp [eintrCount])
+    (by simp [hc, StatusClass.terminal])).1
+  simp only [List.nil_append, stopCount_nil, List.replicate_zero] at this
+  rw [this, hc]
+  by_cases h0 : addedBy steps = 0 <;> simp [h0, StatusClass.expected]
+
+/-! ## the runner's exit code (`-p` on the command line ends in the same registry call) -/
+
+/-- the process exit code of the runner is non-zero iff the run is a failure, and then it is the
+    number of failures -/
+theorem exit_code_reports_failure (st : RunState) (h : st.runCount ≠ 0) :
+    (st.exitCode ≠ 0 ↔ st.overallFailure = true) ∧
+    (st.overallFailure = true → st.exitCode = st.failureCount) := by
+  unfold RunState.exitCode RunState.overallFailure
+  by_cases hf : st.failureCount = 0
+  · simp [hf, h]
+  · simp [hf]
+
 /-! ## non-vacuity: concrete scripts that meet the hypotheses -/
 
 /-- two interrupted waits, a stop (SIGSTOP), one more interrupted wait, then SIGSEGV with core -/
@@ -452,5 +613,12 @@ example : (parentLoop 0 (List.replicate (retryBound + 1) .eintr ++ [.status 0#32
 example : (runAll [⟨true, [.status 9#32]⟩, ⟨false, []⟩, ⟨true, [.status 0#32]⟩]).started = [0, 1, 2] ∧
     (runAll [⟨true, [.status 9#32]⟩, ⟨false, []⟩, ⟨true, [.status 0#32]⟩]).failureCount = 2 := by decide
 example : HasFinal [.eintr, .status 0x137f#32, .error] := ⟨.error, by simp, rfl⟩
+/-- three tests of one group, the second is killed: it is forked, nothing runs in the runner -/
+example : (runRegistry [⟨7, ⟨true, [.status 0#32]⟩⟩, ⟨7, ⟨true, [.status 9#32]⟩⟩, ⟨7, ⟨true, [.status 0#32]⟩⟩]).started = [0, 1, 2] ∧
+    (runRegistry [⟨7, ⟨true, [.status 0#32]⟩⟩, ⟨7, ⟨true, [.status 9#32]⟩⟩, ⟨7, ⟨true, [.status 0#32]⟩⟩]).inRunner = [] ∧
+    (runRegistry [⟨7, ⟨true, [.status 0#32]⟩⟩, ⟨7, ⟨true, [.status 9#32]⟩⟩, ⟨7, ⟨true, [.status 0#32]⟩⟩]).failureCount = 1 := by decide
+/-- plugin pre ok, setup ok, body fails one check, teardown ok, plugin post reports a leak -/
+example : classify (childStatus 3 3 [.adds 0, .adds 0, .adds 1, .adds 0, .adds 1]) = .exited 1 := by decide
+example : childStatus 0 0 [.adds 0, .adds 1, .dies 0x8b#32, .adds 0] = 0x8b#32 := by decide
 
 end SepProc
